@@ -1142,7 +1142,7 @@ func callBuiltin(caller *frame, callpos token.Pos, fn *ssa.Builtin, args []value
 func rangeIter(fr *frame, x value, t types.Type) iter {
 	switch x := x.(type) {
 	case *omap:
-		return fr.i.mapRange(x, t)
+		return fr.i.mapRange(fr, x, t)
 	case string:
 		return &stringIter{Reader: strings.NewReader(x)}
 	case symStr:
